@@ -252,11 +252,20 @@ class _ResultIterator:
     def __init__(self, chunks):
         self.chunks = list(chunks)
         self.pending = []
+        self.waited = False
 
     def __iter__(self):
         return self
 
-    def __next__(self):
+    def __next__(self, timeout=None):
+        if timeout is not None and (self.pending or self.chunks):
+            # a caller that polls with a timeout meets the slow schedule: every result takes longer than one wait, so
+            # each is preceded by exactly one multiprocessing.TimeoutError (as IMapIterator.next(timeout) raises it)
+            if not self.waited:
+                self.waited = True
+                import multiprocessing
+                raise multiprocessing.TimeoutError
+            self.waited = False
         while not self.pending:
             if not self.chunks:
                 raise StopIteration
